@@ -4,6 +4,7 @@ import (
 	"fmt"
 	"go/token"
 	"regexp"
+	"sort"
 	"strings"
 
 	"golang.org/x/tools/go/ssa"
@@ -26,7 +27,7 @@ func init() {
 			ruleIndexRebuilt(c, "R6a")
 			ruleIndexRebuildComplete(c, "R6b")
 			ruleRemoveAllDropsEverything(c, "R7")
-			ruleExhaustiveWalks(c, "R8", []string{"tree.(*node).clean"}, "a cleaned route is no longer reported: Clean visits every child")
+			ruleExhaustiveWalks(c, "R8", []*ssa.Function{c.A.TreeClean}, "a cleaned route is no longer reported: Clean visits every child")
 			ruleCleanTestsEveryChild(c, "R8b")
 		},
 	})
@@ -36,132 +37,287 @@ func isCtxPathField(c *Ctx, v ssa.Value) (base string, ok bool) {
 	return fieldLoadOf(v, c.A.ContextT, "Path")
 }
 
+// attemptSite is one place where the depth-first search tries a child: the call of the segment matcher on the
+// child's segment, or the call of a helper that does exactly that for the node it receives (matchSelf-style).
+type attemptSite struct {
+	f      *ssa.Function // the scanning function
+	in     *ssa.Call     // the attempt (in f)
+	child  ssa.Value     // the node whose segment is matched, in f's frame
+	ctx    ssa.Value     // the context, in f's frame
+	helper *ssa.Function // nil when the matcher is called directly
+	inner  []*ssa.Call   // the matcher calls inside the helper
+}
+
+// nodeOfSegment: seg = load(FieldAddr(node, segment)) -> node
+func nodeOfSegment(c *Ctx, seg ssa.Value) ssa.Value {
+	if u, ok := seg.(*ssa.UnOp); ok {
+		if fa, ok := u.X.(*ssa.FieldAddr); ok && an.FieldName(fa.X.Type(), fa.Field) == c.A.FSegment {
+			return fa.X
+		}
+	}
+	return nil
+}
+
+func attemptSites(c *Ctx) []attemptSite {
+	a := c.A
+	var out []attemptSite
+	helpers := map[*ssa.Function][]*ssa.Call{}
+	helperParam := map[*ssa.Function][2]int{} // index of the node parameter, of the context parameter
+	for _, f := range a.Backtrackers {
+		var direct []*ssa.Call
+		an.AllInstrs(f, func(in ssa.Instruction) {
+			if call, ok := in.(*ssa.Call); ok {
+				if _, is := calleeIs(in, a.SegmentMatch); is {
+					direct = append(direct, call)
+				}
+			}
+		})
+		// a helper: every matcher call is on the segment of one parameter node, and the function has module callers
+		allOnParam := len(direct) > 0
+		pn, pc := -1, -1
+		for _, m := range direct {
+			node := nodeOfSegment(c, m.Call.Args[0])
+			par, isPar := node.(*ssa.Parameter)
+			cpar, isCPar := m.Call.Args[1].(*ssa.Parameter)
+			if !isPar || !isCPar {
+				allOnParam = false
+				break
+			}
+			for i, p := range f.Params {
+				if p == par {
+					pn = i
+				}
+				if p == cpar {
+					pc = i
+				}
+			}
+		}
+		if allOnParam && pn >= 0 && pc >= 0 && len(callSitesOf[f]) > 0 {
+			helpers[f] = direct
+			helperParam[f] = [2]int{pn, pc}
+			continue
+		}
+		for _, m := range direct {
+			out = append(out, attemptSite{f: f, in: m, child: nodeOfSegment(c, m.Call.Args[0]), ctx: m.Call.Args[1]})
+		}
+	}
+	for _, f := range c.libFuncs() {
+		an.AllInstrs(f, func(in ssa.Instruction) {
+			call, ok := in.(*ssa.Call)
+			if !ok {
+				return
+			}
+			h := an.StaticCallee(&call.Call)
+			if h == nil || helpers[h] == nil || h == f {
+				return
+			}
+			args := an.CallArgs(&call.Call)
+			idx := helperParam[h]
+			if idx[0] >= len(args) || idx[1] >= len(args) {
+				return
+			}
+			out = append(out, attemptSite{f: f, in: call, child: args[idx[0]], ctx: args[idx[1]], helper: h, inner: helpers[h]})
+		})
+	}
+	sort.SliceStable(out, func(i, j int) bool {
+		if out[i].f != out[j].f {
+			return an.FuncKey(out[i].f) < an.FuncKey(out[j].f)
+		}
+		return out[i].in.Pos() < out[j].in.Pos()
+	})
+	return out
+}
+
+// scanners: the functions that hold attempt sites (plus the helpers they go through) — the owners of backtracking.
+func scanners(c *Ctx) map[*ssa.Function]bool {
+	out := map[*ssa.Function]bool{}
+	for _, s := range attemptSites(c) {
+		out[s.f] = true
+		if s.helper != nil {
+			out[s.helper] = true
+		}
+	}
+	for _, b := range c.A.Backtrackers {
+		out[b] = true
+	}
+	return out
+}
+
+// nodeViaIndex: the node value was selected through the first-byte index (children[indexes[..]] or indexes[..]).
+func nodeViaIndex(c *Ctx, node ssa.Value) bool {
+	a := c.A
+	cu, ok := node.(*ssa.UnOp)
+	if !ok {
+		if lk, isLk := node.(*ssa.Lookup); isLk {
+			_, isIdx := fieldLoadOf(lk.X, a.NodeT, a.FIndexes)
+			return isIdx
+		}
+		return false
+	}
+	ia, ok := cu.X.(*ssa.IndexAddr)
+	if !ok {
+		return false
+	}
+	lk, ok := ia.Index.(*ssa.Lookup)
+	if !ok {
+		return false
+	}
+	_, isIdx := fieldLoadOf(lk.X, a.NodeT, a.FIndexes)
+	return isIdx
+}
+
 // ruleBacktrackUndo is C01.R1.
 func ruleBacktrackUndo(c *Ctx, rule string) {
 	a := c.A
 	c.R.Rule(c.R.Property+"."+rule, 3, "the reported parameters are those of the finally matched path: none missing and none left over from abandoned alternatives")
 	del := c.P.MustFunc("types.(*Context).Delete")
-	isBacktracker := map[*ssa.Function]bool{}
-	for _, b := range a.Backtrackers {
-		isBacktracker[b] = true
+	owners := scanners(c)
+	sites := attemptSites(c)
+	isAttempt := map[ssa.Instruction]bool{}
+	for _, s := range sites {
+		isAttempt[s.in] = true
 	}
-	for _, f := range a.Backtrackers {
-		var sites []*ssa.Call
-		an.AllInstrs(f, func(in ssa.Instruction) {
-			if call, ok := in.(*ssa.Call); ok {
-				if _, is := calleeIs(in, a.SegmentMatch); is {
-					sites = append(sites, call)
-				}
+	isMatchCall := func(v ssa.Value) bool {
+		call, ok := v.(*ssa.Call)
+		if !ok {
+			return false
+		}
+		g := an.StaticCallee(&call.Call)
+		return g != nil && g == an.Origin(a.SegmentMatch)
+	}
+	for _, s := range sites {
+		s := s
+		f, m := s.f, s.in
+		childAP := an.AP(s.child)
+		segAP := childAP + "." + a.FSegment
+		viaIndex := nodeViaIndex(c, s.child)
+		// the attempt instructions per function: a saved path must have been loaded before them
+		attemptIn := map[*ssa.Function][]ssa.Instruction{f: {m}}
+		wantKey := map[*ssa.Function]string{f: segAP + ".Name"}
+		if s.helper != nil {
+			for _, im := range s.inner {
+				attemptIn[s.helper] = append(attemptIn[s.helper], im)
+				wantKey[s.helper] = an.AP(im.Call.Args[0]) + ".Name"
 			}
-		})
-		for _, m := range sites {
-			m := m
-			segAP := an.AP(m.Call.Args[0])
-			ctxAP := an.AP(m.Call.Args[1])
-			viaIndex := childViaIndex(c, m.Call.Args[0])
-			assume := func(cond ssa.Value) (bool, bool) {
-				v, neg := stripNot(cond)
-				if v == ssa.Value(m) {
-					return !neg, true
-				}
-				return false, false
+		}
+		assume := func(cond ssa.Value) (bool, bool) {
+			v, neg := stripNot(cond)
+			if isMatchCall(v) {
+				return !neg, true // the child's segment matched
 			}
-			target := func(in ssa.Instruction) bool {
-				if call, ok := in.(*ssa.Call); ok {
-					if _, is := calleeIs(in, a.SegmentMatch); is {
-						_ = call
-						return true
-					}
-				}
-				if r, ok := in.(*ssa.Return); ok {
-					return !returnsRecursion(r, isBacktracker)
-				}
+			return false, false
+		}
+		// the abandon region ends at the next attempt or at a return of the scanner that does not hand on a result
+		// of the recursion
+		isSuccessRet := func(in ssa.Instruction) bool {
+			r, ok := in.(*ssa.Return)
+			if !ok || in.Parent() != f {
 				return false
 			}
-			successRet := func(in ssa.Instruction) bool {
-				r, ok := in.(*ssa.Return)
-				return ok && returnsRecursion(r, isBacktracker)
+			return returnsRecursion(r, owners)
+		}
+		target := func(in ssa.Instruction) bool {
+			if in.Parent() == f && isAttempt[in] {
+				return true
 			}
-			// (a) restore of the remaining path
-			restore := func(in ssa.Instruction) bool {
-				st, ok := in.(*ssa.Store)
-				if !ok {
-					return false
-				}
-				base, isPath := isCtxPathField(c, st.Addr)
-				if !isPath || base != ctxAP {
-					return false
-				}
-				ld, isLoad := st.Val.(*ssa.UnOp)
-				if !isLoad || ld.Op != token.MUL {
-					return false
-				}
-				lb, isPathLoad := isCtxPathField(c, ld)
-				if !isPathLoad || lb != ctxAP {
-					return false
-				}
-				return ld.Block().Dominates(m.Block()) && (ld.Block() != m.Block() || instrIndex(ld) < instrIndex(m))
+			if r, ok := in.(*ssa.Return); ok && in.Parent() == f {
+				return !returnsRecursion(r, owners)
 			}
-			path := (&an.Query{Assume: assume, Target: target, Block: func(in ssa.Instruction) bool { return restore(in) || successRet(in) }}).Search(an.After(m))
-			construct := fmt.Sprintf("match:%s/%s/abandon-restores:%s.Path", segAP, ifelse(viaIndex, "via-index", "scan"), ctxAP)
-			o := c.R.Add(rule, c.fk(f), construct, c.pos(m), path == nil, ifelse(path == nil, "after the child's subtree failed every path restores ctx.Path from the value saved before the match", "a child segment can match, its subtree fail, and the search go on without restoring the remaining path: later siblings are tried against a shortened path"))
-			if path != nil {
-				o.Path = c.P.PathString(path)
+			return false
+		}
+		restore := func(in ssa.Instruction) bool {
+			st, ok := in.(*ssa.Store)
+			if !ok {
+				return false
 			}
-			// (b) the abandoned child's capture is deleted (scan children only: the index holds literal children)
-			isDelOf := func(in ssa.Instruction, wantKey string) (isDel bool, right bool) {
-				call, ok := calleeIs(in, del)
-				if !ok || an.AP(call.Args[0]) != ctxAP {
-					return false, false
-				}
-				return true, an.AP(call.Args[1]) == wantKey
+			base, isPath := isCtxPathField(c, st.Addr)
+			if !isPath {
+				return false
 			}
-			wantKey := segAP + ".Name"
-			if !viaIndex {
-				pathB := (&an.Query{Assume: assume, Target: target, Block: func(in ssa.Instruction) bool {
-					_, right := isDelOf(in, wantKey)
-					return right || successRet(in)
-				}}).Search(an.After(m))
-				construct := fmt.Sprintf("match:%s/scan/abandon-deletes:%s", segAP, wantKey)
-				o := c.R.Add(rule, c.fk(f), construct, c.pos(m), pathB == nil, ifelse(pathB == nil, "the abandoned child's capture is deleted on every path", "after a parameter child matched and its subtree failed, its capture stays in the context: the request reports a parameter of an abandoned alternative"))
-				if pathB != nil {
-					o.Path = c.P.PathString(pathB)
+			ld, isLoad := st.Val.(*ssa.UnOp)
+			if !isLoad || ld.Op != token.MUL {
+				return false
+			}
+			lb, isPathLoad := isCtxPathField(c, ld)
+			if !isPathLoad || lb != base {
+				return false
+			}
+			for _, at := range attemptIn[in.Parent()] {
+				if ld.Block().Dominates(at.Block()) && (ld.Block() != at.Block() || instrIndex(ld) < instrIndex(at)) {
+					return true
 				}
 			}
-			// (c) no other key is deleted on the abandon paths
-			an.AllInstrs(f, func(in ssa.Instruction) {
-				isDel, right := isDelOf(in, wantKey)
-				if !isDel || right {
-					return
+			return false
+		}
+		start := an.After(m)
+		skip := false
+		if s.helper != nil {
+			start = an.PointOf(m)
+			skip = true
+		}
+		mk := func(block func(in ssa.Instruction) bool) *an.Query {
+			return &an.Query{Assume: assume, Target: target, Block: block, Deep: deepDefault, SkipStart: skip, Facts: true,
+				Descend: func(g *ssa.Function) bool { return g == s.helper }}
+		}
+		path := mk(func(in ssa.Instruction) bool { return restore(in) || isSuccessRet(in) }).Search(start)
+		construct := fmt.Sprintf("match:%s/%s/abandon-restores:%s.Path", segAP, ifelse(viaIndex, "via-index", "scan"), an.AP(s.ctx))
+		o := c.R.Add(rule, c.fk(f), construct, c.pos(m), path == nil, ifelse(path == nil, "after the child's subtree failed every path restores ctx.Path from the value saved before the match", "a child segment can match, its subtree fail, and the search go on without restoring the remaining path: later siblings are tried against a shortened path"))
+		if path != nil {
+			o.Path = c.P.PathString(path)
+		}
+		// (b) the abandoned child's capture is deleted (scan children only: the index holds literal children)
+		isDelOf := func(in ssa.Instruction) (isDel bool, right bool) {
+			call, ok := calleeIs(in, del)
+			if !ok {
+				return false, false
+			}
+			return true, an.AP(call.Args[1]) == wantKey[in.Parent()]
+		}
+		if !viaIndex {
+			pathB := mk(func(in ssa.Instruction) bool {
+				_, right := isDelOf(in)
+				return right || isSuccessRet(in)
+			}).Search(start)
+			construct := fmt.Sprintf("match:%s/scan/abandon-deletes:%s", segAP, wantKey[f])
+			o := c.R.Add(rule, c.fk(f), construct, c.pos(m), pathB == nil, ifelse(pathB == nil, "the abandoned child's capture is deleted on every path", "after a parameter child matched and its subtree failed, its capture stays in the context: the request reports a parameter of an abandoned alternative"))
+			if pathB != nil {
+				o.Path = c.P.PathString(pathB)
+			}
+		}
+		// (c) no other key is deleted on the abandon paths
+		var dels []ssa.Instruction
+		for _, g := range []*ssa.Function{f, s.helper} {
+			if g == nil {
+				continue
+			}
+			an.AllInstrs(g, func(in ssa.Instruction) {
+				if isDel, right := isDelOf(in); isDel && !right {
+					dels = append(dels, in)
 				}
-				// reachable from this match's abandon region before the next attempt?
-				reach := (&an.Query{Assume: assume, Target: func(t ssa.Instruction) bool { return t == in }, Block: func(t ssa.Instruction) bool {
-					return t != in && (target(t) || successRet(t))
-				}}).Search(an.After(m))
-				if reach == nil {
-					return
-				}
-				construct := fmt.Sprintf("match:%s/abandon-deletes-foreign-key:%s", segAP, an.AP(an.CallOf(in).Args[1]))
-				c.R.Add(rule, c.fk(f), construct, c.pos(in), false, "while undoing the abandoned child "+segAP+" the key "+an.AP(an.CallOf(in).Args[1])+" is deleted: that is the capture of a segment still on the path (a parameter goes missing)")
 			})
 		}
-	}
-}
-
-func instrIndex(in ssa.Instruction) int {
-	for i, x := range in.Block().Instrs {
-		if x == in {
-			return i
+		for _, in := range dels {
+			in := in
+			q := mk(func(t ssa.Instruction) bool { return t != in && (target(t) || isSuccessRet(t)) })
+			q.Target = func(t ssa.Instruction) bool { return t == in }
+			if q.Search(start) == nil {
+				continue
+			}
+			construct := fmt.Sprintf("match:%s/abandon-deletes-foreign-key:%s", segAP, an.AP(an.CallOf(in).Args[1]))
+			c.R.Add(rule, c.fk(f), construct, c.pos(in), false, "while undoing the abandoned child "+segAP+" the key "+an.AP(an.CallOf(in).Args[1])+" is deleted: that is the capture of a segment still on the path (a parameter goes missing)")
 		}
 	}
-	return -1
 }
 
 func returnsRecursion(r *ssa.Return, isBacktracker map[*ssa.Function]bool) bool {
 	if len(r.Results) == 0 {
 		return false
 	}
-	call, ok := r.Results[0].(*ssa.Call)
+	v := r.Results[0]
+	if ex, ok := v.(*ssa.Extract); ok {
+		v = ex.Tuple
+	}
+	call, ok := v.(*ssa.Call)
 	if !ok {
 		return false
 	}
@@ -625,10 +781,7 @@ func ruleParamWriters(c *Ctx, rule string) {
 	c.R.Rule(c.R.Property+"."+rule, 2, "nothing but the matcher writes request parameters while a request is resolved")
 	g := an.NewGraph(c.P)
 	reach := g.Reach([]*ssa.Function{a.TreeHandler}, nil)
-	isBacktracker := map[*ssa.Function]bool{}
-	for _, b := range a.Backtrackers {
-		isBacktracker[b] = true
-	}
+	isBacktracker := scanners(c)
 	fam := matcherFamily(c)
 	writers := map[string]string{"types.(*Context).Set": "set", "types.(*Context).Delete": "delete", "types.(*Context).Reset": "reset"}
 	for _, f := range an.SortedFuncs(reach) {
@@ -645,4 +798,13 @@ func ruleParamWriters(c *Ctx, rule string) {
 			c.R.Add(rule, c.fk(f), "param-"+kind, c.pos(in), good, ifelse(good, "owner of this kind of write", "request parameters are written ("+kind+") below Tree.Handler outside the matcher: "+an.Chain(reach, f)))
 		})
 	}
+}
+
+func instrIndex(in ssa.Instruction) int {
+	for i, x := range in.Block().Instrs {
+		if x == in {
+			return i
+		}
+	}
+	return -1
 }
